@@ -149,6 +149,7 @@ def _case_index(case_id):
 def run_job(job, exe, prop, seed, res, max_restarts=6):
     a, b = job.cases
     restarts = 0
+    hangs = 0
     hang_retry = False
     while a < b:
         lines, rc, err, timed_out, wall = run_process(job, exe, prop, seed, (a, b))
@@ -210,7 +211,9 @@ def run_job(job, exe, prop, seed, res, max_restarts=6):
             res.crashes.append(v)
         k = _case_index(case_id) if case_id else None
         restarts += 1
-        if k is None or restarts > max_restarts:
+        hangs += 1 if is_hang else 0
+        # every reproduced hang costs two CPU limits: after the second one the rest of the range is given up (the violation is reported)
+        if k is None or restarts > max_restarts or hangs >= 2:
             return
         a = k + 1
         hang_retry = False
